@@ -13,9 +13,12 @@ import XzVerif.Lemmas.C02Filter
 import XzVerif.Lemmas.C02Block
 import XzVerif.Lemmas.C02Index
 import XzVerif.Lemmas.C02Uncomp
+import XzVerif.Model.XzEncode
+import XzVerif.Lemmas.XzEncodeStd
+import XzVerif.Lemmas.XzEncodeAlone
 
 namespace XzVerif.C02
-open XzVerif XzVerif.Vli XzVerif.Container
+open XzVerif XzVerif.Vli XzVerif.Container XzVerif.XzDecode XzVerif.XzEncode
 
 /-! ## Gen bridges: what the source says today equals what the model assumes -/
 
@@ -299,15 +302,123 @@ theorem block_uncomp_encode_valid (check : Nat) (data b : List UInt8) (avail : N
                                                          filters := [⟨FILTER_LZMA2, [0x00]⟩] }) ∧
       b.length ≤ avail := blockUncompEncode_valid check data b avail h
 
-/-- Full statement of "encoder output is a valid instance of the format" for an arbitrary Stream encoder `encode`
-    (filters, Check ID, data ↦ bytes): the structural validator of Model/XzStruct.lean accepts the bytes as an encoding
-    of `data`. NOT proved: liblzma's LZMA/LZMA2 encoders are not modelled in this file. What is proved is the part for
-    the uncompressed fall-back (`block_uncomp_encode_valid`) and the round-trip theorems of every field codec the
-    validator relies on; for the real encoders the statement is CHECKED on every run: their output for generated
-    (configuration, data) is fed to this very validator (`valxz`/`valblock` ops) and to an independent Python parser. -/
-def encoder_output_valid_statement (encode : List FilterOpts → Nat → List UInt8 → Res (List UInt8)) : Prop :=
-  ∀ fs check data out, encode fs check data = .ok out →
-    ∃ summary, XzStruct.validateXz (ByteArray.mk out.toArray) check (ByteArray.mk data.toArray) = .ok summary
+/-! ## Whole containers: the encoder models of Model/XzEncode.lean against the decoder model of Model/XzDecode.lean
+
+  `DE : XzDecode.Env` is the decoder side (raw filter-chain decoder, check function), `E : XzEncode.EncEnv` the encoder
+  side (raw filter-chain encoder `encPayload`, `lzma_raw_encoder_init`'s verdict, check function).  Hypotheses:
+    `hw`      the options are API values (`uint32_t` fields, IDs of the coder tables);
+    `hchain`  `lzma_validate_chain` accepts the chain (the model's `rawInit` is a parameter and does not imply it);
+    `hck`     both sides compute the same Check, `lzma_check_size` bytes long (`stdCheck_agrees`: true for Model/Check.lean);
+    `hpc`     the PAYLOAD CONTRACT: the raw decoder, given the chain as the Block Header stores it, maps
+              `encPayload chain x ++ anything` to `x`, stops by itself and reports exactly `|encPayload chain x|` bytes
+              consumed (Props/C01.lean: `lzma1_roundtrip`, `lzma2_chunk_roundtrip` prove this for the LZMA models);
+    `huc`     the same for uncompressed LZMA2 chunks (only where the encoder can fall back to them).
+  A Check ID the build does not support and every other failing initialisation make the encoder model return an error,
+  so "`= .ok out`" covers "valid chain and supported check". -/
+
+/-- **encoder_output_valid** (multi-call Stream encoder, `lzma_stream_encoder` + LZMA_FULL_FLUSH between the pieces +
+    LZMA_FINISH).  Whatever the encoder model returns with LZMA_OK is, for every combination of decoder flags,
+    (1) accepted by `lzma_stream_decoder` + `lzma_code(LZMA_FINISH)` with LZMA_STREAM_END, decoding to the concatenation of
+    the pieces and consuming every byte, and therefore (2) an instance of the declarative grammar `ValidXz` (Stream Header
+    with valid CRC32 and flags; per Block: a header whose size byte, filter flags and CRC32 are right, Compressed Data,
+    zero Block Padding to a multiple of four, the Check of the data; an Index whose Records are exactly the Blocks'
+    (Unpadded Size, Uncompressed Size) in order with zero padding and right CRC32; a footer whose Backward Size is the
+    real Index size and whose flags equal the header's). -/
+theorem encoder_output_valid (DE : Env) (E : EncEnv) (cfg : Cfg) (blocks : List (List UInt8)) (out : List UInt8)
+    (fl : Flags) (cap n : Nat)
+    (hw : ∀ o ∈ cfg.filters, o.wf) (hchain : validateChain (cfg.filters.map (·.id)) = .ok n)
+    (hck : CheckAgrees DE E) (hpc : PayloadContract DE E cfg.filters)
+    (henc : streamEncodeST E cfg blocks = .ok out) (hcap : blocks.flatten.length ≤ cap) :
+    xzDecode DE fl out cap
+      = { ret := .streamEnd, out := blocks.flatten, consumed := out.length, events := headerEvents DE fl cfg.check }
+    ∧ ValidXz DE fl out cap blocks.flatten out.length := by
+  have h := streamEncodeST_decodes DE E cfg blocks out fl cap n hw hchain hck hpc henc hcap
+  refine ⟨h, ?_⟩
+  have hv := validXz_of_xzDecode DE fl out cap (by rw [h])
+  rw [h] at hv
+  exact hv
+
+/-- **encoder_output_valid** for the single-call encoders (`lzma_stream_buffer_encode`, `lzma_easy_buffer_encode`), including
+    the case where the data did not compress and the Block was rewritten as uncompressed LZMA2 chunks under a header that
+    names LZMA2 with the minimum dictionary; and nothing is written past `out_size`. -/
+theorem encoder_output_valid_buffer (DE : Env) (E : EncEnv) (cfg : Cfg) (data out : List UInt8) (avail : Nat)
+    (fl : Flags) (cap n : Nat)
+    (hw : ∀ o ∈ cfg.filters, o.wf) (hchain : validateChain (cfg.filters.map (·.id)) = .ok n)
+    (hck : CheckAgrees DE E) (hpc : PayloadContract DE E cfg.filters) (huc : UncompContract DE)
+    (henc : streamBufferEncode E cfg data avail = .ok out) (hcap : data.length ≤ cap) :
+    xzDecode DE fl out cap
+      = { ret := .streamEnd, out := data, consumed := out.length, events := headerEvents DE fl cfg.check }
+    ∧ ValidXz DE fl out cap data out.length ∧ out.length ≤ avail := by
+  obtain ⟨h, hle⟩ := streamBufferEncode_decodes DE E cfg data out avail fl cap n hw hchain hck hpc huc henc hcap
+  refine ⟨h, ?_, hle⟩
+  have hv := validXz_of_xzDecode DE fl out cap (by rw [h])
+  rw [h] at hv
+  exact hv
+
+/-- **encoder_output_valid** for the container part of the threaded encoder (`lzma_stream_encoder_mt`): Block Headers
+    written late into space reserved from the largest possible size fields, a new Block every `blockSize` bytes and at
+    every flush, uncompressed fall-back per Block. -/
+theorem encoder_output_valid_mt (DE : Env) (E : EncEnv) (cfg : Cfg) (blockSize : Nat) (pieces : List (List UInt8))
+    (out : List UInt8) (fl : Flags) (cap n : Nat)
+    (hw : ∀ o ∈ cfg.filters, o.wf) (hchain : validateChain (cfg.filters.map (·.id)) = .ok n)
+    (hck : CheckAgrees DE E) (hpc : PayloadContract DE E cfg.filters) (huc : UncompContract DE)
+    (henc : streamEncodeMT E cfg blockSize pieces = .ok out) (hcap : pieces.flatten.length ≤ cap) :
+    xzDecode DE fl out cap
+      = { ret := .streamEnd, out := pieces.flatten, consumed := out.length, events := headerEvents DE fl cfg.check }
+    ∧ ValidXz DE fl out cap pieces.flatten out.length := by
+  have h := streamEncodeMT_decodes DE E cfg blockSize pieces out fl cap n hw hchain hck hpc huc henc hcap
+  refine ⟨h, ?_⟩
+  have hv := validXz_of_xzDecode DE fl out cap (by rw [h])
+  rw [h] at hv
+  exact hv
+
+/-- Every Block the three encoders write is truthful on its own (`GoodBlock`: header decodes, size fields absent or equal
+    to the real sizes, raw decoder stops at the end of the Compressed Data, zero padding, Check of the data), and the value
+    handed to `lzma_index_append` is the Block's real Unpadded Size. -/
+theorem encoder_block_truthful (DE : Env) (E : EncEnv) (check : Nat) (fs : List FilterOpts) (n : Nat)
+    (hw : ∀ o ∈ fs, o.wf) (hchain : validateChain (fs.map (·.id)) = .ok n)
+    (hck : CheckAgrees DE E) (hpc : PayloadContract DE E fs) (huc : UncompContract DE) (data : List UInt8) (b : BlockOut) :
+    (blockEncodeST E check fs data = .ok b → GoodBlock DE check data b.bytes b.unpadded ∧ b.uncompressed = data.length) ∧
+    (∀ tc avail, blockBufferEncode E tc check fs data avail = .ok b →
+        GoodBlock DE check data b.bytes b.unpadded ∧ b.uncompressed = data.length) ∧
+    (∀ bs, blockEncodeMT E check fs bs data = .ok b → GoodBlock DE check data b.bytes b.unpadded ∧ b.uncompressed = data.length) :=
+  ⟨blockEncodeST_good DE E check fs n hw hchain hck hpc data b,
+   fun tc avail => blockBufferEncode_good DE E tc check fs n hw hchain hck hpc huc data avail b,
+   fun bs => blockEncodeMT_good DE E check fs n hw hchain hck hpc huc bs data b⟩
+
+/-- `.lzma`: the 13-byte header `lzma_alone_encoder` writes is read back by `lzma_alone_decoder` as the same lc/lp/pb, the
+    stored (rounded-up) dictionary size and "uncompressed size unknown", and the file decodes to the input. -/
+theorem alone_output_valid (P : Alone.Payload) (E : EncEnv) (lc lp pb dict : Nat) (data out : List UInt8) (cfg : Alone.Cfg)
+    (hd : dict < 4294967296) (hnp : cfg.picky = false)
+    (hmem : cfg.memK + aloneDictField dict ≤ Alone.effMemlimit cfg.memlimit)
+    (hpc : P (Alone.aloneOpts lc lp pb (aloneDictField dict) Alone.UNKNOWN64)
+              (E.encPayload [.lzma1 FILTER_LZMA1 lc lp pb dict] data)
+            = ⟨.streamEnd, data, (E.encPayload [.lzma1 FILTER_LZMA1 lc lp pb dict] data).length⟩)
+    (h : aloneEncode E lc lp pb dict data = .ok out) :
+    Alone.aloneDecode P cfg out = { ret := .streamEnd, out := data, consumed := out.length } :=
+  aloneEncode_decodes P E lc lp pb dict data out cfg hd hnp hmem hpc h
+
+/-- The integrity checks of Model/Check.lean meet `CheckAgrees`: the encoder's function IS the one the standard decoder
+    environment `XzEnv.stdEnv` compares against, and it returns 0 / 4 / 8 / 32 bytes for None / CRC32 / CRC64 / SHA-256. -/
+theorem stdCheck_agrees (enc : List FilterOpts → List UInt8 → List UInt8) (rawInit : List FilterOpts → Ret) :
+    CheckAgrees XzEnv.stdEnv { encPayload := enc, rawInit := rawInit, check := stdCheck } :=
+  ⟨fun _ _ => rfl, stdCheck_len rawInit enc⟩
+
+-- The payload contract is satisfiable: a toy self-delimiting coder (`01 b` per byte, `00` at the end) meets it for every chain …
+example (fs : List FilterOpts) : PayloadContract toyDE toyE fs := toy_contract fs
+example : CheckAgrees toyDE toyE := toy_checkAgrees
+-- … the other hypotheses hold for the default chain, and the encoder model does return LZMA_OK (a 3-byte piece, an empty
+-- piece that creates no Block, a 1-byte piece; CRC32) with a file the decoder model accepts:
+example : (∀ o ∈ [FilterOpts.lzma2 8388608], o.wf) ∧ validateChain ([FilterOpts.lzma2 8388608].map (·.id)) = .ok 1 :=
+  ⟨by intro o ho; simp only [List.mem_singleton] at ho; subst ho; simp [FilterOpts.wf], by decide⟩
+example : (match streamEncodeST toyE ⟨1, [.lzma2 8388608]⟩ [[0x61, 0x62, 0x63], [], [0x64]] with
+    | .ok out => (xzDecode toyDE {} out).ret == .streamEnd && (xzDecode toyDE {} out).out == [0x61, 0x62, 0x63, 0x64]
+        && out.length == 80
+    | .error _ => false) = true := by decide +kernel
+-- an empty input gives the 32-byte empty Stream (tests/files/good-0-empty.xz)
+example : streamEncodeST toyE ⟨1, [.lzma2 8388608]⟩ [] = .ok
+    [0xfd, 0x37, 0x7a, 0x58, 0x5a, 0x00, 0x00, 0x01, 0x69, 0x22, 0xde, 0x36, 0x00, 0x00, 0x00, 0x00, 0x1c, 0xdf, 0x44, 0x21,
+     0x90, 0x42, 0x99, 0x0d, 0x01, 0x00, 0x00, 0x00, 0x00, 0x01, 0x59, 0x5a] := by decide +kernel
 
 /-- `lzma_stream_buffer_bound(n)` = Block bound + both 12-byte headers + the largest possible one-Record Index;
     a one-Record Index never needs more than INDEX_BOUND, an empty one needs 8 bytes. -/
@@ -316,13 +427,33 @@ theorem stream_bound_sufficient_partial (n u c : Nat) (hb : streamBufferBound n 
     indexSize 1 (vliSize u + vliSize c) ≤ INDEX_BOUND ∧ indexSize 0 0 ≤ INDEX_BOUND :=
   ⟨(streamBufferBound_spec n).2 hb, indexSize_one_le u c, by decide⟩
 
-/-- Full statement (not proved: it needs a model of `lzma_stream_buffer_encode` including the LZMA2 encoder's
-    fall-back to uncompressed chunks; the arithmetic part is `stream_bound_sufficient_partial` + `block_bound_sufficient`,
-    the behaviour is observed by the `xbound` correspondence ops): with `out_size = lzma_stream_buffer_bound(n) ≠ 0`
-    the single-call Stream encoder never returns LZMA_BUF_ERROR. -/
-def stream_bound_sufficient_statement (streamBufferEncode : List FilterOpts → Nat → List UInt8 → Nat → Res (List UInt8)) : Prop :=
-  ∀ fs check data, streamBufferBound data.length ≠ 0 →
-    Res.ret (streamBufferEncode fs check data (streamBufferBound data.length)) ≠ Ret.bufError
+/-- **stream_bound_sufficient.**  With `out_size = lzma_stream_buffer_bound(n) ≠ 0` the single-call Stream encoder model
+    (`lzma_stream_buffer_encode`: Stream Header, `lzma_block_buffer_encode` with its fall-back to uncompressed LZMA2 chunks
+    when the raw encoder's output does not fit into min(space left, `lzma2_bound(n)`), Index, Stream Footer) never returns
+    LZMA_BUF_ERROR — for ANY payload encoder and any `lzma_raw_encoder_init` verdict; the only requirements are that the
+    options are API values and that the check function returns `lzma_check_size` bytes.  (Where the margin comes from: a
+    Block Header of a ≤ 4-filter chain is ≤ 48 bytes, a supported Check ≤ 32 bytes, HEADERS_BOUND budgets 92; the
+    fall-back header is ≤ 28 bytes; a one-Record Index is ≤ INDEX_BOUND.) -/
+theorem stream_bound_sufficient (E : EncEnv) (cfg : Cfg) (data : List UInt8)
+    (hw : ∀ o ∈ cfg.filters, o.wf) (hckl : CheckLen E) (hb : streamBufferBound data.length ≠ 0) :
+    Res.ret (streamBufferEncode E cfg data (streamBufferBound data.length)) ≠ Ret.bufError :=
+  streamBufferEncode_no_bufError E cfg data hw hckl hb
+
+/-- The Block step alone: with at least `lzma_block_buffer_bound64(n)` bytes `lzma_block_buffer_encode` /
+    `lzma_block_uncomp_encode` never answer LZMA_BUF_ERROR, and the Block written is at least 12 bytes shorter than the bound. -/
+theorem block_bound_sufficient_encoder (E : EncEnv) (tc : Bool) (check : Nat) (fs : List FilterOpts) (data : List UInt8)
+    (avail : Nat) (hw : ∀ o ∈ fs, o.wf) (hckl : CheckLen E) (hl0 : blockBufferBound64 data.length ≠ 0)
+    (ha : blockBufferBound64 data.length ≤ avail) :
+    (∀ e, blockBufferEncode E tc check fs data avail = .error e → e ≠ .bufError) ∧
+    (∀ b, blockBufferEncode E tc check fs data avail = .ok b → b.bytes.length + 12 ≤ blockBufferBound64 data.length) :=
+  blockBufferEncode_at_bound E tc check fs data avail hw hckl
+    (fun h0 => hl0 ((blockBufferBound64_zero_iff _).2 h0)) ha
+
+/-- The model of `lzma_block_uncomp_encode` in Model/XzEncode.lean and the earlier one in Model/Container.lean
+    (`blockUncompEncode`, tied to the C function by the `buenc` correspondence) are the same function wherever the latter
+    is defined (Check None / CRC32 / CRC64 with the reference CRCs). -/
+example : (blockBufferEncode toyE false 1 [] [1, 2, 3] 40).toOption.map (·.bytes) = (blockUncompEncode 1 [1, 2, 3] 40).toOption := by
+  decide +kernel
 
 example : lzma2Bound 65537 = 65544 ∧ blockBufferBound64 65537 = 65636 ∧ streamBufferBound 65537 = 65684 := by decide
 example : blockHeaderSize 0 (some (lzma2Bound 65537)) (some 65537) [.lzma2 DICT_SIZE_MIN] = .ok 16 := by decide
